@@ -558,7 +558,9 @@ def run_C04(ctx, proof_ok):
     n2, d2, dist2 = ndc.search_backends(r, E, budget(ctx.tier, 100, 2500))
     n3, d3 = ndc.search_batched(r, E, budget(ctx.tier, 80, 2000))
     n4, d4 = ndc.search_axis_grids(r, E, budget(ctx.tier, 60, 1500))
-    ctx.violations.extend(d1 + d2 + d3 + d4)
+    n5, d5 = ndc.compare_grid_helpers(r, E, budget(ctx.tier, 300, 5000))
+    n4 += n5
+    ctx.violations.extend(d1 + d2 + d3 + d4 + d5)
     modes = collections.Counter(c["mode"] for c in cases)
     return {"evaluations": n1 + n2 + n3 + n4, "distinct_nontrivial": sum(1 for c in cases if len(c["ops"]) > 3) + n2 + n3 + n4,
             "rule": "random sequences of T/E/Phi/P/R/SPOILER and shifts in 5 modes (n-D integer vectors, python-int and n-D mixed = "
@@ -569,11 +571,12 @@ def run_C04(ctx, proof_ok):
                     "shift-nd / shift-merge / shift-prune and with a switch mid-sequence hold identical content; batched shifts vs "
                     "each signal alone; per-axis kgrid forms (scalar / one value per axis / fewer values = last repeated / more "
                     "values = cropped; coarse first-axis cell with shifts that are multiples of it) on the merging and pruning "
-                    "back-ends vs the integer n-D back-end",
+                    "back-ends vs the integer n-D back-end; `shift.get_grid` / `shift.append_batch_axes` vs the Lean definitions "
+                    "`Shp.getGrid` / `Shp.appendBatchAxes` (theorems in Props/C04Grid.lean)",
             "samples": [lib.jsonable(cases[-1])],
             "distribution": {"model_cases": n1, "modes": dict(modes), **{k: int(v) for k, v in dist1.items()},
                              "backend_cases": n2, **{"backend_" + k: int(v) for k, v in dist2.items()}, "batched_cases": n3,
-                             "axis_grid_cases": n4}}
+                             "axis_grid_cases": n4 - n5, "grid_helper_calls": n5}}
 
 
 def run_C05(ctx, proof_ok):
@@ -587,7 +590,7 @@ def run_C05(ctx, proof_ok):
     n2, d2, dist2 = difc.search_pathways(r, E, budget(ctx.tier, 120, 3000))
     n3, d3 = difc.search_identities(r, E, budget(ctx.tier, 60, 1500))
     ctx.violations.extend(d1 + d2 + d3)
-    return {"evaluations": n1 + n2 + n3 + n4, "distinct_nontrivial": sum(1 for c in cases if len(c["ops"]) > 3) + n2 + n3 + n4,
+    return {"evaluations": n1 + n2 + n3, "distinct_nontrivial": sum(1 for c in cases if len(c["ops"]) > 3) + n2 + n3,
             "rule": "random sequences of T/E/Phi, integer 1-3-D shifts and D(tau, D[, k]) with scalar or random SPD tensor "
                     "diffusivities, kvalue in [2e3, 3e4] rad/m: wavenumber -> state tables of epgpy vs the Lean coordinate-table "
                     "model with `diffuse`; the property: 1-4 RF pulses of arbitrary flip angle/phase with gradient and gradient-free "
@@ -632,7 +635,7 @@ def run_C06(ctx, proof_ok):
     n4, d4 = exc.search_grid(lib.rng(606), E, budget(ctx.tier, 40, 800))
     ctx.violations.extend(d1 + d2 + d3 + d4)
     n3 = n3 + n4
-    return {"evaluations": n1 + n2 + n3 + n4, "distinct_nontrivial": sum(1 for c in cases if len(c["ops"]) > 3) + n2 + n3 + n4,
+    return {"evaluations": n1 + n2 + n3, "distinct_nontrivial": sum(1 for c in cases if len(c["ops"]) > 3) + n2 + n3,
             "rule": "2-4 compartments with random densities and detailed-balance kinetic matrices (or a scalar rate), sequences of "
                     "T / S / per-compartment E / X(tau, K, T1, T2, g incl. None): every compartment's states vs the Lean exchange "
                     "model (scaled Taylor exponential, an algorithm independent of the code's eigendecomposition); physics search: X "
@@ -1207,7 +1210,7 @@ EXTRA_MODULES = {
     "C01": ["EpgVerif.Tie.ApplySites"],
     "C02": ["EpgVerif.Tie.DiffSites", "EpgVerif.Props.C02Run", "EpgVerif.Props.C02Fam", "EpgVerif.Props.C02FamR"],
     "C03": ["EpgVerif.Tie.DiffSites", "EpgVerif.Props.C03Run", "EpgVerif.Props.C03Gen", "EpgVerif.Props.C03E", "EpgVerif.Props.C03Prog", "EpgVerif.Props.C03Diag", "EpgVerif.Props.C03EDiag", "EpgVerif.Props.C03P", "EpgVerif.Props.C03Phi", "EpgVerif.Props.C03R", "EpgVerif.Props.C03All", "EpgVerif.Props.C03PRDiag"],
-    "C04": ["EpgVerif.Tie.ShiftSites", "EpgVerif.Props.C04Multi"],
+    "C04": ["EpgVerif.Tie.ShiftSites", "EpgVerif.Props.C04Multi", "EpgVerif.Props.C04Grid"],
     "C05": ["EpgVerif.Tie.PhysSites", "EpgVerif.Props.C05Path", "EpgVerif.Props.C05Att"],
     "C06": ["EpgVerif.Tie.PhysSites", "EpgVerif.Tie.Exchange"],
     "C07": ["EpgVerif.Tie.ApplySites"],
